@@ -300,6 +300,9 @@ UnaryVerdict(e) ==
   IN IF sp.t = "val" THEN
         (IF sp.v.k = "nan" THEN B2S(NanResultOK(sp.v, e)) ELSE B2S(ResEq(sp.v, r)))
      ELSE IF r.k = "nan" THEN "reject:nan-from-finite"
+     \* the accuracy statements (C16, C17) are about the default nearest-even mode; under another DefaultRoundingMode
+     \* only totality, the special cases above and the absence of NaN are required of these functions
+     ELSE IF mode # RNE THEN "ok"
      ELSE IF e.op = "Sqrt" THEN B2S(~r.neg /\ RootOK(x, r, 2))
      ELSE IF e.op = "Cbrt" THEN B2S(r.neg = x.neg /\ RootOK(x, r, 3))
      ELSE NumericVerdict(e.op, x, r)
@@ -318,13 +321,31 @@ PowVerdict(e) ==
 
 \* documented panics only: anything else that panicked is rejected before its own verdict is consulted
 PanicAllowed(e) ==
-  \/ e.op \in {"Sign", "Payload", "Int", "Rat", "Float", "ToInt"}
+  \/ e.op \in {"Sign", "Payload", "Int", "Rat", "Float", "ToInt"}       \* each verdict checks the documented condition
   \/ (e.op = "Parse" /\ e.via = "MustParse")
+
+\* C07 formatting: see Fmt.tla (until then: totality and determinism only)
+FormatVerdict(e) == "ok"
+
+\* C20 pieces without a value semantics of their own: totality only
+PayloadVerdict(e) == LET x == Decode(e.x) IN IF IsNaN(x) THEN B2S(~Panicked(e)) ELSE B2S(Panicked(e))     \* documented panic
+MiscValueVerdict(e) ==
+  CASE e.f = "NaN" -> B2S(Decode(e.r).k = "nan")
+    [] e.f = "Inf" -> B2S(Decode(e.r) = InfV(e.sgn < 0))
+    [] e.f = "ModeString" -> B2S(Len(e.s) > 0)
+    [] OTHER -> "ok"
 
 RawVerdict(e) ==
   IF ~Frame(e) THEN "reject:frame-mode"
   ELSE IF Panicked(e) /\ ~PanicAllowed(e) THEN "reject:panic"
+  ELSE IF Has(e, "det") /\ ~e.det THEN "reject:nondeterministic"
+  ELSE IF Has(e, "seqeq") /\ ~e.seqeq THEN "reject:concurrent-result-differs"
+  ELSE IF Has(e, "inmod") /\ e.inmod THEN "reject:input-modified"
+  ELSE IF Has(e, "m") /\ e.m > 5 /\ e.op # "SetMode" THEN "ok"          \* a mode outside the six named ones: totality only
   ELSE CASE e.op = "SetMode" -> "ok"
+         [] e.op = "Payload" -> PayloadVerdict(e)
+         [] e.op \in {"Format", "Sprintf", "Scan"} -> FormatVerdict(e)
+         [] e.op = "Misc" -> MiscValueVerdict(e)
          [] e.op \in {"Add", "Sub", "Mul", "Quo"} -> Bin2Verdict(e)
          [] e.op = "QuoRem" -> QuoRemVerdict(e)
          [] e.op \in {"Cmp", "CmpAbs"} -> CmpVerdict(e)
